@@ -132,6 +132,16 @@ func templateSites(p *core.Program) []templateSite {
 
 func (s *templateSite) addArg(info *types.Info, a ast.Expr) {
 	a = ast.Unparen(a)
+	// a binding's value may be held in a local that is defined once (`typeID := snippet.ID(obj)` used in several templates)
+	resolve := func(e ast.Expr) ast.Expr {
+		if s.F != nil && s.F.Root().Body != nil {
+			if re, idx := core.Resolve(info, s.F.Root().Body, e); idx < 0 && re != nil {
+				return re
+			}
+		}
+		return e
+	}
+	a = ast.Unparen(resolve(a))
 	if cl, ok := a.(*ast.CompositeLit); ok && core.NamedTypeName(info.TypeOf(cl)) == snippetFn("Args") {
 		for _, el := range cl.Elts {
 			kv, ok := el.(*ast.KeyValueExpr)
@@ -140,7 +150,7 @@ func (s *templateSite) addArg(info *types.Info, a ast.Expr) {
 				continue
 			}
 			name, isC := core.ConstString(info, kv.Key)
-			s.Bindings = append(s.Bindings, binding{Name: name, Ctor: ctorOf(info, kv.Value), Expr: kv.Value, Const: isC})
+			s.Bindings = append(s.Bindings, binding{Name: name, Ctor: ctorOf(info, resolve(kv.Value)), Expr: resolve(kv.Value), Const: isC})
 			if !isC {
 				s.OpenArgs = true
 			}
@@ -151,7 +161,7 @@ func (s *templateSite) addArg(info *types.Info, a ast.Expr) {
 		switch core.CalleeName(info, c) {
 		case snippetFn("Arg"):
 			name, isC := core.ConstString(info, c.Args[0])
-			s.Bindings = append(s.Bindings, binding{Name: name, Ctor: ctorOf(info, c.Args[1]), Expr: c.Args[1], Const: isC})
+			s.Bindings = append(s.Bindings, binding{Name: name, Ctor: ctorOf(info, resolve(c.Args[1])), Expr: resolve(c.Args[1]), Const: isC})
 			if !isC {
 				s.OpenArgs = true
 			}
